@@ -248,6 +248,10 @@ _PATCH_NOTES = {
     "XD4": "sqlite: initialize()/set_journal_mode()/create_schema(), Txn::begin()", "XE1": "api: constants moved to api/headers.rs", "XE2": "core: SnapshotUrgency moved to snapshot_urgency.rs",
     "XE3": "sqlite: schema set-up moved to schema.rs", "XE4": "lib: index + no-store headers moved to root.rs", "XF1": "core: SnapshotAge trait (one_and_a_half) + generic for_age + map_or",
     "XF2": "api: BodyLimit newtype const + read() with fn-pointer overflow constructor", "XF3": "sqlite: From<StoredUuid> for Uuid, named mappers, zip/then_some", "XF4": "inmemory: derive Default, let-else, matches!, and_then",
+    "RYA": "repaired seed: VersionRef(Option<VersionId>) newtype", "RYB": "repaired seed: known() + ParentCheck enum", "RYC": "repaired seed: Write enum + table-driven Txn::write",
+    "RYD": "repaired seed: Placement enum with payloads", "RYE": "repaired seed: VersionKey/VersionRow + redundant owned_by filter", "RYE2": "repaired seed: VersionKey/VersionRow",
+    "RYF": "repaired seed: Ancestry iterator struct for the snapshot walk", "RYG": "repaired seed: SnapshotAge struct + DaysSince trait", "RYH": "repaired seed: Failure error type implementing ResponseError",
+    "RYI": "repaired seed: BodyKind enum, ALL.into_iter().find()", "RYJ": "repaired seed: for_client continuation-passing helper",
     "WD1": "core: junior tidy-up of server.rs", "WD2": "sqlite: junior tidy-up", "WD3": "api: junior tidy-up of handlers", "WD4": "bin: junior tidy-up",
 }
 for _p in sorted(_glob.glob(_os.path.join(_PD, "*.diff"))):
